@@ -140,6 +140,21 @@ def run_modes(cfg, prior_name, seq, poller=None):
     for k in (2, 3, 4):
         ak, nk = group_addr(cfg, k)
         dev.rf.setbytes(ak, others if others is not None else (SCHED_BASE[1] if cfg['v2'] else ECO_V1_BASE[1]))    # enabled groups to be switched off
+    if poller and poller.startswith('redetect:'):
+        # the model was detected before, when the inverter did not answer the probe of the 12-byte groups (refused it /
+        # stayed silent); it is detected again now and answers
+        how = poller.split(':')[1]
+        poller = None
+        if cfg['family'] == 'ET':
+            if how == 'probe-refused-first':
+                keep_ref = list(dev.refused)
+                dev.refused = keep_ref + [(47547, 47552)]
+                r.call(inv.read_device_info)
+                dev.refused = keep_ref
+            else:
+                dev.drop_at = {len(dev.log) + k for k in range(1, 12)}     # everything after the first answer is lost
+                r.call(inv.read_device_info)
+                dev.drop_at = set()
     if r.call(inv.read_device_info)[0] != 'ok':
         return [('device-info', '')], 0
     modes = r.call(inv.get_operation_modes, True)[1]
@@ -317,17 +332,19 @@ def job_e2e(j):
             continue
         if poller and poller.startswith('others:') and not (len(seq) == 1 and seq[0][0] in (OM.ECO_CHARGE, OM.ECO_DISCHARGE) and seq[0][1:] in ((55, 50), (100, 100))):
             continue
+        if poller and poller.startswith('redetect:') and not (len(seq) == 1 and seq[0][0] in (OM.ECO_CHARGE, OM.ECO_DISCHARGE)):
+            continue
         if poller and poller.startswith('seen-off:') and not (seq[0][0] in (OM.ECO_CHARGE, OM.ECO_DISCHARGE) and (len(seq) == 1 and seq[0][1:] in ((55, 50), (100, 100)) or len(seq) == 3)):
             continue
         if poller and poller.startswith('other-between') and not (len(seq) == 1 and seq[0][0] in (OM.ECO_CHARGE, OM.ECO_DISCHARGE)):
             continue
-        if poller and poller != 'getter-first' and not poller.startswith('other-between') and not poller.startswith('others:') and not poller.startswith('seen-off:') and \
+        if poller and poller != 'getter-first' and not poller.startswith('other-between') and not poller.startswith('others:') and not poller.startswith('seen-off:') and not poller.startswith('redetect:') and \
                 not poller.startswith('runtime-state:') and not (len(seq) == 1 and seq[0][0] in (OM.ECO_CHARGE, OM.ECO_DISCHARGE) and seq[0][1:] in ((55, 50), (9, 50))):
             continue
         vio, k = run_modes(cfg, prior_name, seq, poller)
         n += k
         for key, cause in vio:
-            kk = f"{key}/{cfg['name']}/prior:{prior_name}" + ('/after-a-getter-call' if poller == 'getter-first' else f"/another-object-reads-between:{poller.split(':', 1)[1]}" if poller and poller.startswith('other-between') else f"/groups-2-4-hold:{poller.split(':', 1)[1]}" if poller and poller.startswith('others:') else f"/groups-2-4-seen-off-before:{poller.split(':', 1)[1]}" if poller and poller.startswith('seen-off:') else f"/inverter-runtime-state:{poller.split(':', 1)[1]}" if poller and poller.startswith('runtime-state:') else f"/while-polling:{poller.split('@')[0]}" if poller else '')
+            kk = f"{key}/{cfg['name']}/prior:{prior_name}" + ('/after-a-getter-call' if poller == 'getter-first' else f"/another-object-reads-between:{poller.split(':', 1)[1]}" if poller and poller.startswith('other-between') else f"/groups-2-4-hold:{poller.split(':', 1)[1]}" if poller and poller.startswith('others:') else f"/groups-2-4-seen-off-before:{poller.split(':', 1)[1]}" if poller and poller.startswith('seen-off:') else f"/model-detected-twice:{poller.split(':', 1)[1]}" if poller and poller.startswith('redetect:') else f"/inverter-runtime-state:{poller.split(':', 1)[1]}" if poller and poller.startswith('runtime-state:') else f"/while-polling:{poller.split('@')[0]}" if poller else '')
             out.setdefault(kk, []).append(dict(key=kk, clause=key.split('/')[0],
                                                replay=dict(part='e2e', cfg=cfg, prior=prior_name, poller=poller,
                                                            seq=[[getattr(m, 'name', m), p, s] for m, p, s in seq]),
@@ -463,6 +480,9 @@ def run(tier, seed, rep):
                 if cfg['family'] == 'ET':
                     for w in range(0, 8):
                         jobs.append((cfg, prior, f'runtime-state:{w}'))
+            if prior in ('off', 'charge') and cfg['family'] == 'ET' and cfg['v2']:
+                jobs.append((cfg, prior, 'redetect:probe-refused-first'))
+                jobs.append((cfg, prior, 'redetect:probe-lost-first'))
             if prior in ('off', 'charge', 'discharge'):
                 for who in ('same', 'other'):
                     for how in ('groups', 'all-settings'):
